@@ -20,6 +20,7 @@ def handlers : List (List Sexp → Option Sexp) :=
     Driver.heapHandle,
     Driver.infixHandle,
     Driver.quotedHandle,
+    Driver.countedHandle,
     Driver.namesHandle ]
 
 def dispatch (line : String) : String :=
